@@ -307,6 +307,15 @@ def main():
         broken.append("Properties/%s.v does not compile: %s" % (prop, pa_out[-300:]))
     if axioms:
         broken.append("Print Assumptions reports axioms: %s" % axioms)
+    chk_note = "not run in the quick tier"
+    if tier == "thorough" and ok and names and not replay:
+        # independent re-check of the compiled property file and everything it depends on
+        rc_c, out_c = sh("coqchk -silent -o -Q . MT MT.Properties.%s 2>&1" % prop, cwd=COQ, timeout=1800)
+        m_ax = re.search(r"\* Axioms:\s*(.*?)\n\s*\n", out_c + "\n\n", flags=re.S)
+        ax_txt = (m_ax.group(1).strip() if m_ax else "?")
+        chk_note = "coqchk -o: rc=%s Axioms: %s" % (rc_c, ax_txt[:200])
+        if rc_c != 0 or ax_txt != "<none>" or "type-in-type: <none>" not in out_c or "positivity is assumed: <none>" not in out_c:
+            broken.append("coqchk does not accept Properties/%s.vo cleanly: %s" % (prop, out_c[-600:]))
 
     if replay:
         rp = json.load(open(replay))
@@ -338,7 +347,7 @@ def main():
     ev_theorems = names
     d = r["dstats"]; h = r["hstats"]
     evaluations = sum(h.get(k, 0) for k in ("probes", "probes_via_parser", "display_probes", "event_histories", "state_histories", "init_checks",
-                                           "purity_pairs", "ris_pairs", "chunkings", "decode_runs", "osc_cases", "byte_cases", "api_cases", "big_cases"))
+                                           "purity_pairs", "ris_pairs", "chunkings", "decode_runs", "osc_cases", "byte_cases", "api_cases", "big_cases", "osc_byte_cases", "exhaustive_short_streams"))
     distinct = d.get("distinct_nontrivial", 0) + sum(h.get(k, 0) for k in ("streams", "byte_strings", "osc_cases", "purity_pairs", "ris_pairs", "byte_cases", "api_cases")) \
         + d.get("event_histories", 0) + d.get("state_histories", 0)
     obligations = len(names) + len(TABLE_DEPS.get(prop, []))
@@ -350,6 +359,7 @@ def main():
         "theorems_in_property_file": len(names),
         "theorems": ev_theorems + ["tables_ok_%s" % t for t in TABLE_DEPS.get(prop, [])],
         "print_assumptions": "Closed under the global context" if not axioms else axioms,
+        "coqchk": chk_note,
         "evaluations": evaluations, "distinct_nontrivial": distinct,
         "rule": "local probes: (implementation pre-state, operation) pairs from systematically built reachable states; distinct = distinct hash of (pre-state, op); non-trivial = observable post-state differs from pre-state. histories/streams: each generated input counted once.",
         "samples": r["samples"][:10] or ["(no sample recorded)"],
